@@ -385,7 +385,7 @@ theorem chunkExts_fuel {relaxed : Bool} : ∀ (f f' : Nat) (s c : Bytes), s.leng
               have l2 := oneExt_ok_length h2
               simp only
               simp at l1
-              exact ih f' s3 s3 (by omega) (by omega)
+              exact ih f' s3 _ (by omega) (by omega)
           · simp [hb]
 
 theorem chunkExts_done_append {relaxed : Bool} {f : Nat} {s c r c' : Bytes} (m : Bytes)
@@ -469,20 +469,39 @@ theorem chunkExts_restart {relaxed : Bool} {f : Nat} {s c c' : Bytes}
         | ok s3 =>
           simp only [h2] at h
           have l2 := oneExt_ok_length h2
-          right
-          intro m F hF
-          cases F with
-          | zero => omega
-          | succ F =>
-            have step : chunkExts relaxed (F + 1) (s ++ m) (c ++ m) = chunkExts relaxed F (s3 ++ m) (s3 ++ m) := by
-              simp only [chunkExts, bws_ok_append m h1, List.cons_append, hb, if_true, oneExt_ok_append m h2]
-            have hlen : (s3 ++ m).length < F := by
-              simp at l1 hF ⊢; omega
+          cases hfl : ChunkedSets.extCommit with
+          | true =>
+            simp only [hfl, if_true] at h
+            right
+            intro m F hF
+            cases F with
+            | zero => omega
+            | succ F =>
+              have step : chunkExts relaxed (F + 1) (s ++ m) (c ++ m) = chunkExts relaxed F (s3 ++ m) (s3 ++ m) := by
+                simp only [chunkExts, bws_ok_append m h1, List.cons_append, hb, if_true, oneExt_ok_append m h2, hfl]
+              have hlen : (s3 ++ m).length < F := by
+                simp at l1 hF ⊢; omega
+              rcases ih h with heq | hrest
+              · subst heq
+                exact ⟨F, hlen, step⟩
+              · obtain ⟨G, hG, hGe⟩ := hrest m F hlen
+                exact ⟨G, hG, step.trans hGe⟩
+          | false =>
+            simp only [hfl, Bool.false_eq_true, if_false] at h
             rcases ih h with heq | hrest
-            · subst heq
-              exact ⟨F, hlen, step⟩
-            · obtain ⟨G, hG, hGe⟩ := hrest m F hlen
-              exact ⟨G, hG, step.trans hGe⟩
+            · exact Or.inl heq
+            · right
+              intro m F hF
+              cases F with
+              | zero => omega
+              | succ F =>
+                have step : chunkExts relaxed (F + 1) (s ++ m) (c ++ m) = chunkExts relaxed F (s3 ++ m) (c ++ m) := by
+                  simp only [chunkExts, bws_ok_append m h1, List.cons_append, hb, if_true, oneExt_ok_append m h2, hfl,
+                    Bool.false_eq_true, if_false]
+                have hlen : (s3 ++ m).length < F := by
+                  simp at l1 hF ⊢; omega
+                obtain ⟨G, hG, hGe⟩ := hrest m F hlen
+                exact ⟨G, hG, step.trans hGe⟩
       · simp [hb, ExtRes.committed] at h; exact Or.inl h.symm
 
 theorem skipAll_skipAll_of_sub {p q : CharSet} (hsub : ∀ b, p.mem b = true → q.mem b = true) (s : Bytes) :
@@ -596,7 +615,7 @@ theorem metaSuffix_at_commit_point (relaxed : Bool) (u : Bytes) (G : Nat) (hG : 
           have l2 := oneExt_ok_length h2
           simp only
           left
-          rw [chunkExts_fuel G F s3 s3 (by simp at hl2; omega) (by simp at hl2; omega), hF]
+          rw [chunkExts_fuel G F s3 _ (by simp at hl2; omega) (by simp at hl2; omega), hF]
       · simp only [hb, if_false, metaPost]
         by_cases hu : u = a' :: t'
         · left; rw [hu]
